@@ -154,7 +154,8 @@ theorem getIDLoop_mono (J : Joint keys keep t t' queue) (kn : List Nat) :
                   omega
                 simp only [hid] at h ⊢
                 have hlne : rr.labels[k] ≠ 0 := by
-                  rw [hkl, labelIdxOfKey_eq_labelAt, Ne, labelAt_eq_zero_iff]; omega
+                  rw [hkl, labelIdxOfKey_eq_labelAt _ _ _ (fun hb => hiws ▸ (hbigws hb).1), Ne,
+                    labelAt_eq_zero_iff]; omega
                 have hfb : i + wordSize rr.big = c.fb := by
                   rw [hcfb, hiws]; unfold labelLen wordSize; rw [if_neg hlne]
                 rw [hfb] at h ⊢
